@@ -33,7 +33,6 @@ LABELS = ["bad-type-name", "bad-field-name", "bad-argument-name", "bad-input-fie
           "non-object-root", "missing-query-root", "resolver-missing-parameter", "resolver-optional-argument-without-default",
           "resolver-too-few-positionals", "resolver-extra-required-parameter"]
 
-BAD_NAMES = ["bad-name", "__reserved", "1starts", "has space", ""]
 
 
 def inject(draw, spec, label, used, uid):
@@ -50,14 +49,18 @@ def inject(draw, spec, label, used, uid):
         return n
 
     def badname(prefix):
-        k = draw(st.integers(0, 3))
-        return ["%s-bad%d" % (prefix, uid), "__%s%d" % (prefix, uid), "%d%s" % (uid, prefix), "%s %d" % (prefix, uid)][k]
+        k = draw(st.integers(0, 9))
+        if prefix == "T" and k in (3, 7, 8):
+            k = 0    # type names travel inside type strings of the generator's own spec format: no whitespace there
+        return ["%s-bad%d" % (prefix, uid), "__%s%d" % (prefix, uid), "%d%s" % (uid, prefix), "%s %d" % (prefix, uid),
+                "%scaf\u00e9%d" % (prefix, uid), "%s%d\u0661" % (prefix, uid), "%s.%d" % (prefix, uid), "%s\t%d" % (prefix, uid),
+                "%s%d\n" % (prefix, uid), "\u00e9%s%d" % (prefix, uid)][k]
 
     if label == "bad-type-name":
         n = pick(("object", "interface", "union", "enum", "input"), lambda t: True)
         if not n or n in (spec["query"], spec.get("mutation"), spec.get("subscription")):
             return None
-        new = "T%d-bad" % uid
+        new = badname("T")
         _rename_type(spec, n, new)
         used.add(new)
         return new, {}
